@@ -252,7 +252,10 @@ Definition c03_setlocal (legacy : bool) (l : list c03_pair) (g : Z) (v : N) : li
   | r => (l, c03_bs_err r)
   end.
 
-(* operator==(ParallelIndexSet, ParallelIndexSet): sizes, then pairwise global() and the local indices
+(* operator==(ParallelIndexSet<TG,TL,N>, ParallelIndexSet<TG1,TL1,N1>): sizes, then pairwise global() and the local indices.
+   (Instances with different local index types do not compile: `const PI& pi=..., pi1=iter1->local()` would need two user-defined
+   conversions; different global index types TG/TG1 and chunk sizes N/N1 do, and are exercised by the `Z` and `z` probes.)
+   Then:
    (ParallelLocalIndex operator!=: local(), attribute(), isPublic(); the state is NOT compared) *)
 Definition c03_local_neq (p q : c03_pair) : bool :=
   negb (c03_loc p =? c03_loc q)%N || negb (c03_attr p =? c03_attr q)%N || negb (Bool.eqb (c03_pub p) (c03_pub q)).
@@ -303,6 +306,16 @@ Definition c03_lookup_size (l : list c03_pair) : c03_out := C03Num (Z.of_N (N.su
 
 (* add(global): IndexPair(global) -> local_() = ParallelLocalIndex(): localIndex_(0), attribute_(), public_(false), VALID *)
 Definition c03_add_default (g : Z) : c03_op := C03Add g 0%N 0%N false.
+
+(* add(x.global(), x.local()) with x = begin()[k], i.e. with references into the set's own storage: the operation it amounts to.
+   Dereferencing end() and adding a local index whose state is DELETED (add() copies the state; merge() never drops an ADDED
+   pair) are outside the documented use: both are mapped to an operation whose only effect is the output C03Precond. *)
+Definition c03_readd_op (l : list c03_pair) (k : nat) : c03_op :=
+  match nth_error l k with
+  | Some p => if c03_del p then C03Cmp (length l) (length l) 0
+              else C03Add (c03_g p) (c03_loc p) (c03_attr p) (c03_pub p)
+  | None => C03Cmp (length l) (length l) 0
+  end.
 
 Definition c03_step (chk legacy : bool) (st : c03_state) (op : c03_op) : c03_state * c03_out :=
   let '(C03State rz local fresh seq dl) := st in
